@@ -14,9 +14,9 @@
   16-byte IV, base64 decodes what it encoded).  SHA-512, AES, HMAC, base64 are NOT proved.
 
   Scope notes (not overstated):
-  * the theorems speak about the descriptor *record* `Info`; the XML text of `build_encryption_info`
-    and the scanner `Agile.parseInfo` are executed and compared on every check run, their round trip
-    is not proved;
+  * the theorems of THIS file speak about the descriptor *record* `Info`; `Thm/C14Info.lean` proves that the
+    independent stream reader `Agile.parseInfo` returns that record from the bytes `build_encryption_info`
+    writes (`C14_info_parses`) and restates them from the two stream contents (`C14_decrypts_text`, …);
   * `C14_decrypts` needs `data.length < 2^32`: the code writes StreamSize as `input.len() as u32`
     (see `C14_declared_size` / `C14_declared_size_4GiB_fails`);
   * freshness of the random material is not a functional property (harness exploration only);
